@@ -146,7 +146,7 @@ func Run(v Vec) (pots []*pot.Pot, res *settlement.Result, perr interface{}) {
 		res.AddPot(p.Total, p.Levels)
 	}
 	for i := range v.C {
-		res.AddPlayer(i, 1000000)
+		res.AddPlayer(i, v.C[i]+1000000) // the bankroll covers what was put in
 		if v.F[i] {
 			res.UpdateScore(i, 0)
 		} else {
@@ -297,8 +297,11 @@ func Check(v Vec, prop string) *vlib.Violation {
 	ch := map[int]int64{}
 	for _, pr := range res.Players {
 		ch[pr.Idx] += pr.Changed
-		if pr.Final != 1000000+pr.Changed {
-			return vlib.V("C02", "final", "%s: player %d final %d, bankroll+change %d", v.Short(), pr.Idx, pr.Final, 1000000+pr.Changed)
+		if pr.Idx < 0 || pr.Idx >= len(v.C) {
+			return vlib.V("C02", "player-missing", "%s: result for unknown player %d", v.Short(), pr.Idx)
+		}
+		if bank := v.C[pr.Idx] + 1000000; pr.Final != bank+pr.Changed {
+			return vlib.V("C02", "final", "%s: player %d final %d, bankroll+change %d", v.Short(), pr.Idx, pr.Final, bank+pr.Changed)
 		}
 	}
 	return CheckSettle(v, ch)
